@@ -1,19 +1,22 @@
 #!/bin/sh
-# Applies every seeded change in /verif/seeded/*/patch.diff to /repo in turn, runs the quick tier of the check named in
-# its meta.json (check_id) and reports whether a VIOLATION was printed. /repo is restored after each seed.
+# Applies every seeded change in /verif/seeded/*/patch.diff in turn to a scratch worktree of /repo's HEAD (never to
+# /repo itself), runs the quick tier of the check named in its meta.json (check_id) against that worktree (VERIF_REPO)
+# and reports whether a VIOLATION was printed. The worktree is removed at the end.
 # usage: lib/seedregress.sh [seed-dir-name ...]
 cd /verif || exit 2
-if [ -n "$(git -C /repo status --porcelain)" ]; then echo "/repo is not clean"; exit 2; fi
+WT=/tmp/seedreg-$$
+git -C /repo worktree add --detach "$WT" HEAD >/dev/null 2>&1 || exit 2
+trap 'git -C /repo worktree remove --force "$WT" 2>/dev/null; git -C /repo worktree prune' EXIT
 seeds="$*"; [ -z "$seeds" ] && seeds=$(ls seeded)
 for s in $seeds; do
 	[ -f seeded/$s/patch.diff ] || continue
 	cid=$(python3 -c "import json;print(json.load(open('/verif/seeded/$s/meta.json')).get('check_id','${s%%.*}'))")
-	if ! git -C /repo apply /verif/seeded/$s/patch.diff 2>/dev/null; then echo "$s: PATCH DOES NOT APPLY"; continue; fi
-	out=$(./check $cid quick 2>&1)
-	git -C /repo checkout -- .
-	if echo "$out" | grep -q "^VIOLATION"; then
-		echo "$s: DETECTED by $cid ($(echo "$out" | grep -m1 'key=' | sed 's/^ *//' | cut -c1-110))"
+	if ! git -C "$WT" apply /verif/seeded/$s/patch.diff 2>/dev/null; then echo "$s: PATCH DOES NOT APPLY"; continue; fi
+	out=$(VERIF_REPO="$WT" ./check $cid quick 2>&1)
+	git -C "$WT" checkout -- . ; git -C "$WT" clean -fdq pkg cmd 2>/dev/null
+	if echo "$out" | grep -a -q "^VIOLATION"; then
+		echo "$s: DETECTED by $cid ($(echo "$out" | grep -a -m1 'key=' | sed 's/^ *//' | cut -c1-110))"
 	else
-		echo "$s: MISSED by $cid ($(echo "$out" | grep -m1 '^check' | cut -c1-120))"
+		echo "$s: MISSED by $cid ($(echo "$out" | grep -a -m1 '^check' | cut -c1-120))"
 	fi
 done
